@@ -708,7 +708,7 @@ func (b *bitstream) readNsecs(length uint64) (int, bool, uint8, error) {
 		return 0, false, 0, err
 	}
 
-	if _, exp := d.CoEx(); exp > math.MaxInt32-9 {
+	if _, exp := d.CoEx(); exp > math.MaxInt32-9 || exp == math.MinInt32 {
 		// Scaling to nanoseconds would push the exponent out of range (ShiftL panics).
 		msg := fmt.Sprintf("invalid timestamp fraction: %v", d)
 		return 0, false, 0, &SyntaxError{msg, b.pos}
